@@ -14,7 +14,7 @@
    bodies is, step by step, what the declaration prescribes. *)
 From Fiano Require Import Base.Bytes Model.Manifest Model.ManifestIR Gen.ManifestCodecs
   Proofs.ManifestProofs Proofs.ManifestIRProofs Proofs.ManifestRehashProofs
-  Proofs.ManifestContainerProofs.
+  Proofs.ManifestContainerProofs Proofs.ManifestStoredProofs.
 Open Scope Z_scope.
 
 (* ================= once and for all (every schema) ================= *)
@@ -91,6 +91,36 @@ Theorem C15_stored_offset_points_at_field : forall d v a k t,
               o = offset_of d v1 k /\ sub o (size_f t x) b1 = enc_f t x.
 Proof. exact stored_offset_points_at_field. Qed.
 Print Assumptions C15_stored_offset_points_at_field.
+
+(* a field that Rehash sets to TotalSize() (tag var1 on the StructInfo: ElementSize; tag
+   rehashValue:"TotalSize()": HashList.Size) holds, in the value WriteTo leaves behind, the number
+   of bytes WriteTo produced, truncated to the width of the field *)
+Theorem C15_stored_size_is_written_length : forall d v a,
+  sdesc_ok d = true -> wf d v = true -> In a (sd_rh d) -> rh_expr a = XTotalSize ->
+  forall v1 b1, write d v = (v1, b1) ->
+  get_path v1 (rh_path a) = Some (VInt (zlen b1 mod wmax (rh_width a))).
+Proof. exact stored_size_is_written_length. Qed.
+Print Assumptions C15_stored_size_is_written_length.
+
+(* ... and a field that Rehash sets to a constant (tags var0 / var1 with a literal) holds it *)
+Theorem C15_stored_const_is_written : forall d v a z,
+  sdesc_ok d = true -> wf d v = true -> In a (sd_rh d) -> rh_expr a = XConst z ->
+  forall v1 b1, write d v = (v1, b1) ->
+  get_path v1 (rh_path a) = Some (VInt (z mod wmax (rh_width a))).
+Proof. exact stored_const_is_written. Qed.
+Print Assumptions C15_stored_const_is_written.
+
+(* ... and it suffices that the OFFSET fits the field (the manifest itself may be longer than
+   64 KiB as long as the key-and-signature structure starts below 64 KiB) *)
+Theorem C15_stored_offset_points_at_field_fits : forall d v a k t,
+  sdesc_ok d = true -> wf d v = true ->
+  In a (sd_rh d) -> rh_expr a = XOffsetOf k -> field_s (sd_schema d) k = Some t ->
+  offset_of d v k < wmax (rh_width a) ->
+  forall v1 b1, write d v = (v1, b1) ->
+  exists o x, get_path v1 (rh_path a) = Some (VInt o) /\ vnth v1 k = Some x /\
+              o = offset_of d v1 k /\ sub o (size_f t x) b1 = enc_f t x.
+Proof. exact stored_offset_points_at_field_fits. Qed.
+Print Assumptions C15_stored_offset_points_at_field_fits.
 
 (* soundness of the decidable relation: if it holds, what the generated statements do
    (IR interpreters) is the generic codec: same values, same rest, the count added to
@@ -307,6 +337,33 @@ Print Assumptions C15_all_structures_realise.
 
 (* ================= instantiated corollaries ================= *)
 
+(* whatever structures the source has now: every field whose tag prescribes the written value
+   (var0, var1, rehashValue:"TotalSize()") holds it after WriteTo -- element sizes and the size
+   field of a hash list are the length of the bytes written (mod 2^16) *)
+Theorem C15_stored_values_all_structures : forall x a v v1 b1,
+  In x all_structs -> In a (sd_rh (snd (fst x))) -> wf (snd (fst x)) v = true ->
+  write (snd (fst x)) v = (v1, b1) ->
+  (rh_expr a = XTotalSize ->
+     get_path v1 (rh_path a) = Some (VInt (zlen b1 mod wmax (rh_width a)))) /\
+  (forall z, rh_expr a = XConst z ->
+     get_path v1 (rh_path a) = Some (VInt (z mod wmax (rh_width a)))).
+Proof. apply stored_sizes_all. vm_compute. reflexivity. Qed.
+Print Assumptions C15_stored_values_all_structures.
+
+(* CBnT IBB segments element: StructInfo.ElementSize (field 3 of field 0) is the number of
+   bytes WriteTo produces, mod 2^16 *)
+Theorem C15_se_element_size : forall v v1 b1,
+  wf cbnt_cbntbootpolicy_SE_desc v = true ->
+  write cbnt_cbntbootpolicy_SE_desc v = (v1, b1) ->
+  get_path v1 [0%nat; 3%nat] = Some (VInt (zlen b1 mod 65536)).
+Proof.
+  intros v v1 b1 W E.
+  apply (stored_size_is_written_length cbnt_cbntbootpolicy_SE_desc v
+           (mkRh [0%nat; 3%nat] 2 XTotalSize) (proj2 cbnt_cbntbootpolicy_SE_codec_ok) W); auto.
+  vm_compute. tauto.
+Qed.
+Print Assumptions C15_se_element_size.
+
 (* CBnT key manifest: KeyManifestSignatureOffset (field 1) is the position of
    KeyAndSignature (field 8) in the bytes WriteTo produces, and those bytes are the
    key-and-signature structure *)
@@ -325,6 +382,24 @@ Proof.
   vm_compute. tauto.
 Qed.
 Print Assumptions C15_km_signature_offset.
+
+(* ... also for a key manifest of 64 KiB and more, as long as the position of KeyAndSignature
+   is below 64 KiB *)
+Theorem C15_km_signature_offset_fits : forall v v1 b1,
+  wf cbnt_cbntkey_Manifest_desc v = true ->
+  offset_of cbnt_cbntkey_Manifest_desc v 8 < 65536 ->
+  write cbnt_cbntkey_Manifest_desc v = (v1, b1) ->
+  exists o x, vnth v1 1 = Some (VInt o) /\ vnth v1 8 = Some x /\
+    o = offset_of cbnt_cbntkey_Manifest_desc v1 8 /\
+    sub o (size_s cbnt_KeySignature_schema x) b1 = enc_s cbnt_KeySignature_schema x.
+Proof.
+  intros v v1 b1 W L E.
+  apply (stored_offset_points_at_field_fits cbnt_cbntkey_Manifest_desc v
+           (mkRh [1%nat] 2 (XOffsetOf 8)) 8 (FSub cbnt_KeySignature_schema cbnt_KeySignature_rh)
+           (proj2 cbnt_cbntkey_Manifest_codec_ok) W); auto.
+  vm_compute. tauto.
+Qed.
+Print Assumptions C15_km_signature_offset_fits.
 
 (* CBnT boot policy manifest: BPMH.KeySignatureOffset (field 1 of element 0) =
    position of the PMSE element (slot 6) + offset of its KeySignature (field 1) *)
@@ -347,11 +422,14 @@ Print Assumptions C15_bpm_signature_offset.
 (* ================= examples: the hypotheses are satisfiable, non-trivially ================= *)
 Definition vl (l : list value) : value := fold_right VCons VNil l.
 
-(* a CBnT key manifest with one hash, an ECC key (64 bytes of key data for 256 bits) and a
-   512-bit signature (64 bytes) *)
+(* a CBnT key manifest with one hash, an ECC key (64 bytes of key data for 256 bits) and an
+   ECDSA signature over that curve: key size 256, data = R and S of 32 bytes each (64 bytes).
+   This is what Signature.SetSignature stores for a P-256 key; the reader takes 2 * KeySize / 8
+   bytes for the schemes ECDSA and SM2 (fixes/C15-ecdsa-signature-size.diff; before that repair
+   it took KeySize / 8 bytes and such a manifest did not read back) *)
 Definition ex_ks : value :=
   vl [VInt 16; vl [VInt 35; VInt 16; VInt 256; VBytes (zrepeat 1 64)];
-      vl [VInt 24; VInt 16; VInt 512; VInt 12; VBytes (zrepeat 2 64)]].
+      vl [VInt 24; VInt 16; VInt 256; VInt 12; VBytes (zrepeat 2 64)]].
 Definition ex_km : value :=
   vl [vl [VBytes cbnt_cbntkey_Manifest_id; VInt 33; VInt 7; VInt 9]; VInt 0; VBytes [0; 0; 0];
       VInt 1; VInt 2; VInt 3; VInt 11;
@@ -406,3 +484,18 @@ Definition ex_bad_key : value := vl [VInt 1; VInt 16; VInt 2048; VBytes [1; 2; 3
 Example ex_bad_key_not_wf : wf cbnt_Key_desc ex_bad_key = false /\
   read cbnt_Key_desc (snd (write cbnt_Key_desc ex_bad_key)) = None.
 Proof. split; vm_compute; reflexivity. Qed.
+
+(* the stored-size theorems are not vacuous: the declarations do prescribe such fields *)
+Example ex_se_has_size_field :
+  In (mkRh [0%nat; 3%nat] 2 XTotalSize) (sd_rh cbnt_cbntbootpolicy_SE_desc) /\
+  In (mkRh [0%nat] 2 XTotalSize) (sd_rh cbnt_HashList_desc) /\
+  In (mkRh [0%nat; 2%nat] 1 (XConst 32)) (sd_rh cbnt_cbntbootpolicy_BPMH_desc).
+Proof. vm_compute. tauto. Qed.
+
+(* signature data by scheme: RSA (RSASSA = 20) as wide as the key, ECDSA (24) and SM2 (27) twice *)
+Example ex_signature_sizes :
+  wf cbnt_Signature_desc (vl [VInt 20; VInt 16; VInt 2048; VInt 11; VBytes (zrepeat 3 256)]) = true /\
+  wf cbnt_Signature_desc (vl [VInt 24; VInt 16; VInt 384; VInt 12; VBytes (zrepeat 3 96)]) = true /\
+  wf cbnt_Signature_desc (vl [VInt 27; VInt 16; VInt 256; VInt 18; VBytes (zrepeat 3 64)]) = true /\
+  wf cbnt_Signature_desc (vl [VInt 24; VInt 16; VInt 256; VInt 12; VBytes (zrepeat 3 32)]) = false.
+Proof. vm_compute. repeat split; reflexivity. Qed.
